@@ -412,13 +412,15 @@ typedef struct sim_rank
   void               *fake;
   sim_op             *op;
   sim_op              start;    /* pending operation before the first step */
-  int                 cl;
+  int                 cl;       /* cached classification of op */
+  int                 dirty;    /* cl must be recomputed */
   long                seq;      /* trace sequence */
   long                rseq;     /* request sequence */
   long                upolls;
-  long                upoll_epoch;
   int                 probe_denials;
   int                 finalized;
+  void              **held;     /* temporaries alive across a scheduling point */
+  int                 nheld, capheld;
 }
 sim_rank;
 
@@ -783,6 +785,43 @@ yield_step (const char *fname)
   op.kind = OP_STEP;
   op.fname = fname;
   yield_op (&op);
+}
+
+/* A coroutine that is parked when the run is stopped (deadlock, abort) never
+ * resumes: heap temporaries that live across a scheduling point are
+ * registered here so that cleanup () can release them. */
+static void        *
+hold (void *p)
+{
+  sim_rank           *r = S.cur;
+
+  if (p != NULL) {
+    if (r->nheld == r->capheld) {
+      r->capheld = r->capheld ? 2 * r->capheld : 4;
+      r->held =
+        (void **) xrealloc (r->held, (size_t) r->capheld * sizeof (void *));
+    }
+    r->held[r->nheld++] = p;
+  }
+  return p;
+}
+
+static void
+unhold_free (void *p)
+{
+  sim_rank           *r = S.cur;
+  int                 i;
+
+  if (p == NULL) {
+    return;
+  }
+  for (i = r->nheld - 1; i >= 0; i--) {
+    if (r->held[i] == p) {
+      r->held[i] = r->held[--r->nheld];
+      break;
+    }
+  }
+  free (p);
 }
 
 /* ---------------------------------------------------------------- lookups */
@@ -1585,9 +1624,33 @@ choose_candidate (sim_comm * c, int dst, int src, int tag)
   return best;
 }
 
+/* the cached classification of a rank's pending operation may have changed */
+static void
+touch_world (int world)
+{
+  S.ranks[world].dirty = 1;
+  S.ranks[world].upolls = 0;    /* something it may be polling for has changed */
+}
+
+static void
+touch (sim_comm * c, int crank)
+{
+  touch_world (c->m[crank]);
+}
+
+static void
+touch_all (sim_comm * c)
+{
+  int                 i;
+  for (i = 0; i < c->n; i++) {
+    touch_world (c->m[i]);
+  }
+}
+
 static void
 uq_append (sim_comm * c, sim_msg * m)
 {
+  touch (c, m->dst);
   m->next = NULL;
   m->prev = c->uq_tail[m->dst];
   if (m->prev != NULL) {
@@ -1657,6 +1720,7 @@ msg_matched (sim_msg * m)
 {
   if (m->sreq != NULL) {
     m->sreq->complete = 1;
+    touch_world (m->sreq->owner);
     m->sreq->msg = NULL;
     m->sreq = NULL;
   }
@@ -1824,6 +1888,7 @@ do_send (const char *fname, const void *buf, int count, MPI_Datatype dth,
     pq_unlink (c, dest, r);
     r->matched = m;
     r->complete = 1;
+    touch_world (r->owner);
     msg_matched (m);
   }
   else {
@@ -1873,6 +1938,7 @@ do_send (const char *fname, const void *buf, int count, MPI_Datatype dth,
         op.src = dest;
         op.tag = tag;
         op.req = q;
+        hold (keep.p);
         yield_op (&op);
         if (tr) {
           S.line.n = 0;
@@ -1881,7 +1947,7 @@ do_send (const char *fname, const void *buf, int count, MPI_Datatype dth,
       }
       req_release (q);
     }
-    sb_free (&keep);
+    unhold_free (keep.p);
     if (tr) {
       tr_end ();
     }
@@ -2581,6 +2647,7 @@ coll_complete (sim_coll * k)
     for (i = 0; i < n; i++) {
       if (k->ibreq[i] != NULL) {
         k->ibreq[i]->complete = 1;
+        touch_world (k->ibreq[i]->owner);
       }
     }
     break;
@@ -2708,6 +2775,7 @@ coll_begin (sim_comm * c, int cr, int kind, int root, const char *fname,
          fname, c->id, seq, sig, (unsigned) oph, k->sig, (unsigned) k->oph);
     }
   }
+  touch_all (c);
   k->entered[cr] = 1;
   k->contrib[cr] = contrib != NULL ? xmemdup (contrib, nbytes) : NULL;
   k->clen[cr] = contrib != NULL ? nbytes : 0;
@@ -2871,10 +2939,10 @@ MPI_Bcast (void *buffer, int count, MPI_Datatype dth, int root, MPI_Comm comm)
   }
   nb = (size_t) count *dt->size;
   if (cr == root) {
-    pk = dt_pack_new (buffer, dt, (size_t) count, &nb);
+    pk = (unsigned char *) hold (dt_pack_new (buffer, dt, (size_t) count, &nb));
   }
   k = coll_begin (c, cr, CK_BCAST, root, fname, pk, nb, (long) nb, 0);
-  free (pk);
+  unhold_free (pk);
   coll_wait (k, cr, cr == root ? N_NONE : N_ROOT, 0);
   if (cr != root) {
     dt_unpack (buffer, (unsigned char *) k->contrib[root], dt, nb);
@@ -2939,6 +3007,7 @@ do_gather (const char *fname, int kind, const void *sendbuf, int sendcount,
     }
     pk = dt_pack_new (sendbuf, sdt, (size_t) sendcount, &nb);
   }
+  hold (pk);
   k = coll_begin (c, cr, kind, all ? -1 : root, fname, pk, nb, -1, 0);
   coll_wait (k, cr, amroot ? N_ALL : N_NONE, 0);
   if (amroot) {
@@ -2986,7 +3055,7 @@ do_gather (const char *fname, int kind, const void *sendbuf, int sendcount,
     }
     tr_end ();
   }
-  free (pk);
+  unhold_free (pk);
   coll_leave (k);
   return rc;
 }
@@ -3061,8 +3130,9 @@ MPI_Scatter (const void *sendbuf, int sendcount, MPI_Datatype sendtype,
     }
     pk = dt_pack_new (sendbuf, sdt, (size_t) sendcount * (size_t) c->n, &nb);
   }
+  hold (pk);
   k = coll_begin (c, cr, CK_SCATTER, root, fname, pk, nb, -1, 0);
-  free (pk);
+  unhold_free (pk);
   coll_wait (k, cr, cr == root ? N_NONE : N_ROOT, 0);
   blk = k->clen[root] / (size_t) c->n;
   want = (size_t) recvcount *rdt->size;
@@ -3106,6 +3176,7 @@ MPI_Alltoall (const void *sendbuf, int sendcount, MPI_Datatype sendtype,
     return err;
   }
   pk = dt_pack_new (sendbuf, sdt, (size_t) sendcount * (size_t) c->n, &nb);
+  hold (pk);
   k = coll_begin (c, cr, CK_ALLTOALL, -1, fname, pk, nb, -1, 0);
   coll_wait (k, cr, N_ALL, 0);
   want = (size_t) recvcount *rdt->size;
@@ -3135,7 +3206,7 @@ MPI_Alltoall (const void *sendbuf, int sendcount, MPI_Datatype sendtype,
     tr_end ();
   }
   sb_free (&cat);
-  free (pk);
+  unhold_free (pk);
   coll_leave (k);
   return rc;
 }
@@ -3178,6 +3249,7 @@ MPI_Alltoallv (const void *sendbuf, const int sendcounts[],
              sdt, (size_t) sendcounts[i]);
     off += l;
   }
+  hold (pk);
   k = coll_begin (c, cr, CK_ALLTOALLV, -1, fname, pk, nb, -1, 0);
   coll_wait (k, cr, N_ALL, 0);
   memset (&cat, 0, sizeof (cat));
@@ -3214,7 +3286,7 @@ MPI_Alltoallv (const void *sendbuf, const int sendcounts[],
     tr_end ();
   }
   sb_free (&cat);
-  free (pk);
+  unhold_free (pk);
   coll_leave (k);
   return rc;
 }
@@ -3718,9 +3790,9 @@ MPI_Comm_split_type (MPI_Comm comm, int split_type, int key, MPI_Info info,
 static sim_group   *
 group_get (MPI_Group h)
 {
-  int                 idx = H_IDX (h);
+  int                 idx = H_IDX (h) - 1;      /* index 0 is MPI_GROUP_EMPTY */
 
-  if (((unsigned) h & HK_MASK) != HK_GROUP || idx >= S.ngroups
+  if (((unsigned) h & HK_MASK) != HK_GROUP || idx < 0 || idx >= S.ngroups
       || S.groups[idx] == NULL || !S.groups[idx]->alive) {
     return NULL;
   }
@@ -3745,8 +3817,8 @@ group_new (int n, const int *m)
     S.groups =
       (sim_group **) xrealloc (S.groups, S.capgroups * sizeof (sim_group *));
   }
-  S.groups[S.ngroups] = g;
-  return (MPI_Group) (HK_GROUP | (unsigned) S.ngroups++);
+  S.groups[S.ngroups++] = g;
+  return (MPI_Group) (HK_GROUP | (unsigned) S.ngroups);
 }
 
 int
@@ -5017,6 +5089,7 @@ MPI_Win_lock (int lock_type, int rank, int assert, MPI_Win win)
   op.target = rank;
   op.locktype = lock_type;
   yield_op (&op);
+  touch_all (w->icomm);         /* others waiting for this lock become disabled */
   if ((assert & MPI_MODE_NOCHECK) && !lock_free_for (w, rank, lock_type, cr)) {
     sim_warn
       ("%s: MPI_MODE_NOCHECK asserted on window %d target %d but a conflicting lock is held (exclusive holder %d, shared holders %d)",
@@ -5063,6 +5136,7 @@ MPI_Win_unlock (int rank, MPI_Win win)
                       w->id);
   }
   yield_step (fname);
+  touch_all (w->icomm);
   if (*h == 2) {
     if (w->excl[rank] == cr) {
       w->excl[rank] = -1;
@@ -5321,7 +5395,7 @@ schedule (sbuf * rep)
   sim_rank          **park = (sim_rank **) xmalloc ((size_t) P * sizeof (*park));
   int                *vals = (int *) xcalloc ((size_t) P, sizeof (int));
   int                 code = SIMMPI_OK;
-  int                 budget = S.o.poll_budget > 0 ? S.o.poll_budget : 2;
+  int                 budget = S.o.poll_budget > 0 ? S.o.poll_budget : 4;
   int                 lpolls = S.o.livelock_polls > 0 ? S.o.livelock_polls : 64;
   long                maxsteps = S.o.max_steps > 0 ? S.o.max_steps : 20000000L;
 
@@ -5339,15 +5413,21 @@ schedule (sbuf * rep)
       if (r->state != RS_READY) {
         continue;
       }
-      r->cl = classify (r);
+      if (r->dirty) {
+        r->cl = classify (r);
+        r->dirty = 0;
+      }
+#ifdef SIMMPI_PARANOID
+      else if (r->cl != classify (r)) {
+        fprintf (stderr, "simmpi: stale classification of rank %d (%s)\n",
+                 r->world, r->op->fname);
+        abort ();
+      }
+#endif
       if (r->cl == CL_PROD) {
         cand[nc++] = r;
       }
       else if (r->cl == CL_UPOLL) {
-        if (r->upoll_epoch != S.epoch) {
-          r->upoll_epoch = S.epoch;
-          r->upolls = 0;
-        }
         if (r->upolls < budget) {
           cand[nc++] = r;
         }
@@ -5426,9 +5506,11 @@ schedule (sbuf * rep)
       r->upolls++;
     }
     else {
+      r->upolls = 0;
       S.epoch++;
     }
     S.wticks++;
+    r->dirty = 1;
     switch_to_rank (r);
     if (S.term) {
       code = S.term;
@@ -5689,6 +5771,10 @@ cleanup (void)
       }
       munmap (r->stack_map, r->stack_map_size);
     }
+    while (r->nheld > 0) {
+      free (r->held[--r->nheld]);
+    }
+    free (r->held);
   }
   free (S.ranks);
   for (i = 0; i < S.nreqs; i++) {
@@ -5851,10 +5937,10 @@ simmpi_run (const simmpi_opts * o, simmpi_main_t fn, void *arg,
     sim_rank           *r = &S.ranks[i];
     r->world = i;
     r->state = RS_READY;
-    r->upoll_epoch = -1;
     r->start.kind = OP_STEP;
     r->start.fname = "start";
     r->op = &r->start;
+    r->dirty = 1;
     r->stack_map_size = stack_size + page;
     r->stack_map =
       (char *) mmap (NULL, r->stack_map_size, PROT_READ | PROT_WRITE,
